@@ -119,18 +119,21 @@ def operandNat : Operand → Option Nat
   | .int n => some n
   | _ => none
 
+/-- the effect of one range condition on its key's `QueryRange` (the `switch c.Op` of
+`LookForRanges`: the last bound of a side wins, the inclusive flags are only ever set) -/
+def updRange (c : Cond) (r : QRange) : QRange :=
+  match c.op with
+  | .gt => { r with lower := operandNat c.operand }
+  | .ge => { r with incLower := true, lower := operandNat c.operand }
+  | .lt => { r with upper := operandNat c.operand }
+  | .le => { r with incUpper := true, upper := operandNat c.operand }
+  | _ => r
+
 /-- one step of `LookForRanges` (the map is kept in order of first insertion; Go iterates it in
 random order, the scans' results are intersected so the order does not change the set) -/
 def addRange (rs : List QRange) (c : Cond) : List QRange :=
-  let upd (r : QRange) : QRange :=
-    match c.op with
-    | .gt => { r with lower := operandNat c.operand }
-    | .ge => { r with incLower := true, lower := operandNat c.operand }
-    | .lt => { r with upper := operandNat c.operand }
-    | .le => { r with incUpper := true, upper := operandNat c.operand }
-    | _ => r
-  if rs.any (·.key == c.key) then rs.map (fun r => if r.key == c.key then upd r else r)
-  else rs ++ [upd { key := c.key }]
+  if rs.any (·.key == c.key) then rs.map (fun r => if r.key == c.key then updRange c r else r)
+  else rs ++ [updRange c { key := c.key }]
 
 def lookForRanges (q : Query) : List QRange :=
   (q.filter (fun c => isRangeOp c.op)).foldl addRange []
